@@ -284,6 +284,60 @@ def rule_pipeline(ctx: Ctx):
         ctx.ob("R-C03-6", f"find.{name}/span-from-extract_pin_cite", len(uses) == 1, "span end comes from extract_pin_cite", node=f, mod=fm, nontrivial=False)
 
 
+def rule_reference_extents(ctx: Ctx):
+    """R-C03-7: filter_citations decides overlaps on full_span().  That finds every overlap of the spans themselves only if each citation's
+    full span contains its span.  For citations built from tokens this is R-C02-3/4; reference citations are built with explicit offsets, so:
+    at every ReferenceCitation(...) construction the full span's ends are the span's own ends (same expressions), and nothing stores a
+    reference's full-span fields afterwards."""
+    repo = ctx.repo
+    fm = repo.mod("find")
+    n = 0
+    for q, mod, fn in repo.all_funcs():
+        for c in [x for x in walk_local(fn) if isinstance(x, ast.Call) and dotted(x.func) == "ReferenceCitation"]:
+            kw = {k.arg: k.value for k in c.keywords if k.arg}
+            n += 1
+            pairs = [("full_span_start", "span_start"), ("full_span_end", "span_end")]
+            from ..core import Locals
+
+            LW = Locals(fn)
+
+            def _contains(a_expr, b_expr, which):
+                """same expression, or both are <map>.update(origin + M.<which>(..), side) of the same map with the full-span one taken from the whole
+                match and the span one from a group of the same match (a group lies inside its match; the offset map is monotone)"""
+                if norm(a_expr) == norm(b_expr):
+                    return True
+                ea, eb = LW.expand(a_expr, c), LW.expand(b_expr, c)
+                if norm(ea) == norm(eb):
+                    return True
+                def parts(e_):
+                    if isinstance(e_, ast.Call) and isinstance(e_.func, ast.Attribute) and e_.func.attr == "update" and len(e_.args) == 2 \
+                            and isinstance(e_.args[0], ast.BinOp) and isinstance(e_.args[0].op, ast.Add):
+                        pos = e_.args[0].right
+                        if isinstance(pos, ast.Call) and isinstance(pos.func, ast.Attribute) and pos.func.attr == which and isinstance(pos.func.value, ast.Name):
+                            return norm(e_.func.value), norm(e_.args[0].left), pos.func.value.id, [norm(x_) for x_ in pos.args]
+                    return None
+                pa, pb = parts(ea), parts(eb)
+                return pa is not None and pb is not None and pa[:3] == pb[:3] and pa[3] in ([], ["0"]) and pb[3] not in ([],)
+            bad = [f"{a}={norm(kw[a])[:30]} vs {b}={norm(kw[b])[:30]}" for a, b in pairs if a in kw and b in kw
+                   and not _contains(kw[a], kw[b], "start" if a.endswith("start") else "end")]
+            missing = [a for a, b in pairs if (a in kw) != (b in kw)]
+            ctx.ob("R-C03-7", f"{q}/ReferenceCitation:full-span-is-span", not bad and not missing,
+                   "a reference citation is built with full_span_start == span_start and full_span_end == span_end (same expressions), so the overlap test on "
+                   f"full spans sees every overlap of its span (differences: {bad or missing})", node=c, mod=mod)
+        # stores into full-span fields of something that is a reference citation
+        for st in [x for x in walk_local(fn) if isinstance(x, (ast.Assign, ast.AugAssign))]:
+            tgts = st.targets if isinstance(st, ast.Assign) else [st.target]
+            flat = []
+            for t in tgts:
+                flat += list(t.elts) if isinstance(t, (ast.Tuple, ast.List)) else [t]
+            for t in flat:
+                if isinstance(t, ast.Attribute) and t.attr in ("full_span_start", "full_span_end") and mod.name == "find" and not q.endswith("__init__"):
+                    ctx.ob("R-C03-7", f"{q}/store:{norm(t)[:40]}", False,
+                           f"`{norm(t)}` is rewritten after construction in the reference-extraction code: a full span that no longer contains the citation's own span "
+                           "hides an overlap from filter_citations", node=st, mod=mod)
+    ctx.ob("R-C03-7", "find/reference-constructions", n >= 2, f"{n} ReferenceCitation constructions inspected", node=None, mod=fm, nontrivial=False)
+
+
 def run(ctx: Ctx):
     ctx.level = "other"
     ctx.explanation = (
@@ -299,5 +353,6 @@ def run(ctx: Ctx):
     ctx.assumptions = ["tokens never overlap (C12)"]
     ctx.guard(rule_filter, ctx)
     ctx.guard(rule_pipeline, ctx)
+    ctx.guard(rule_reference_extents, ctx)
     ctx.floor("R-C03-2", 5)
     ctx.floor("R-C03-6", 3)
